@@ -150,26 +150,31 @@ def consumeWhile (p : Nat → Bool) (s : St) : St :=
 def consumeName (s : St) : Bool × St :=
   if s.nextIs isNameStart then (true, consumeWhile isNameCont (consumeRune s)) else (false, s)
 
-/-- `consumeIntegerPart` (int_value.go:7). -/
-def consumeIntegerPart (s : St) : Bool × St :=
-  let s := if s.next = some 45 ∧ isDigit s.peek then consumeRune s else s
+/-- The second half of `consumeIntegerPart` (int_value.go:12-22): `0`, or a run of digits. -/
+def consumeIntegerDigits (s : St) : Bool × St :=
   if s.next = some 48 then (true, consumeRune s)
   else if !s.nextIs isDigit then (false, s)
   else (true, consumeWhile isDigit s)
+
+/-- `consumeIntegerPart` (int_value.go:7): an optional `-` (only when a digit follows), then the digits. -/
+def consumeIntegerPart (s : St) : Bool × St :=
+  consumeIntegerDigits (if s.next = some 45 ∧ isDigit s.peek then consumeRune s else s)
 
 /-- `consumeFractionalPart` (float_value.go:3). -/
 def consumeFractionalPart (s : St) : Bool × St :=
   if s.next ≠ some 46 ∨ !isDigit s.peek then (false, s)
   else (true, consumeWhile isDigit (consumeRune s))
 
+/-- float_value.go:19-21: an optional sign. -/
+def consumeSign (s : St) : St := if s.next = some 43 ∨ s.next = some 45 then consumeRune s else s
+
+/-- float_value.go:22-24: "exponent digit expected" unless a digit follows. -/
+def expectDigit (s : St) : St := if !s.nextIs isDigit then s.errorf else s
+
 /-- `consumeExponentPart` (float_value.go:14). -/
 def consumeExponentPart (s : St) : Bool × St :=
   if s.next ≠ some 101 ∧ s.next ≠ some 69 then (false, s)
-  else
-    let s := consumeRune s
-    let s := if s.next = some 43 ∨ s.next = some 45 then consumeRune s else s
-    let s := if !s.nextIs isDigit then s.errorf else s
-    (true, consumeWhile isDigit s)
+  else (true, consumeWhile isDigit (expectDigit (consumeSign (consumeRune s))))
 
 /-! ## Strings (string_value.go) -/
 
